@@ -44,6 +44,13 @@ func patch(
 		}
 		return o, nil
 	}
+	if len(pathAhead) > 0 && strategy == strictPatchStrategy {
+		// A set or multiset path element addresses the members of an
+		// array. This node is not an array.
+		return nil, fmt.Errorf(
+			"found %v at %v: expected JSON array",
+			node.Json(), pathBehind)
+	}
 	if len(oldValues) > 1 || len(newValues) > 1 {
 		return patchErrNonSetDiff(oldValues, newValues, pathBehind)
 	}
